@@ -19,7 +19,7 @@ PURE_RULE = ("; `gkh pure` calls the side-effect-free functions of package def (
 
 GOLEAN_RULE = ("; `gkh golean` re-translates the decision logic of package def, internal/sortable_task, the whole "
                "MutationHookTimer (repository/mution_hook_timer.go), the observable wrapper (repository/repository.go), the in-memory repository's AddTask / GetById / UpdateById / Cancel / "
-               "MarkAsDispatched / MarkAsDone / GetNext / Find / Save / Load, the cron store's timer functions and the mutator decoders from the CURRENT "
+               "MarkAsDispatched / MarkAsDone / GetNext / Find / Save / Load, the cron store's timer functions, the scheduler's Step / Retry / dispatchTask (as drivers of the World automaton) and the mutator decoders from the CURRENT "
                "Go sources into Lean (lean/Gk/Gen/*.lean, go/ast, no skipping: an unsupported construct is a broken tie, DIFF "
                "golean) before the audit, and the tie theorems (kind `tie`, Gk/Props/Tie*.lean) prove for all inputs that "
                "each generated definition equals the hand-written model definition the property theorems are about")
@@ -370,5 +370,5 @@ def _with_golean(cfg):
     cfg["trusted_base"] = cfg["trusted_base"] + GOLEAN_TB
 
 
-for _p in ("C01", "C02", "C05", "C07", "C11", "C12", "C14", "C17", "C18"):
+for _p in ("C01", "C02", "C03", "C04", "C05", "C06", "C07", "C11", "C12", "C14", "C17", "C18", "C20"):
     _with_golean(CHECKS[_p])
